@@ -115,10 +115,14 @@ class Tally:
         self.blocked = 0
         self.exact = 0
         self.aliased = 0
+        self.crashes = 0
+        self.confirmed = set()
 
     def judge(self, mode, beh, res):
         """beh: the behaviour handed to the harness (or the random history), res: what the real code did."""
         ctx = self.ctx
+        if res.get("crash"):
+            return self.crashed(mode, beh, res)
         if res.get("err"):
             self.errors.append("%s %s: %s" % (mode, res.get("id"), res["err"]))
             return
@@ -151,7 +155,43 @@ class Tally:
                               {"mode": mode, "behaviour": beh, "result": res})
 
 
-def replay(ctx, tally, mode, behs, final=False):
+def crash_signature(c):
+    return "crash/%s/%s" % (c.get("where") or "other", c.get("frame") or "unknown")
+
+
+def _crashed(self, mode, beh, res):
+    """The worker process died while this behaviour was being executed (harness/cases/c08/supervise.go).  A panic
+    whose first non-runtime frame is code of /repo is a violation: a controller (or store) that dies on a reachable
+    history never converges.  Anything else (harness frame, no panic message, hang) is an infrastructure problem."""
+    c = res["crash"]
+    self.crashes += 1
+    if c.get("origin") != "repo" or not c.get("panic"):
+        self.errors.append("%s %s: worker died outside the code under test (%s; %s; frame %s)"
+                           % (mode, res.get("id"), c.get("exit"), c.get("panic") or "no panic message", c.get("frame")))
+        return
+    sig = crash_signature(c)
+    if c.get("confirmed"):
+        self.confirmed.add(sig)
+    elif not c.get("assumed"):
+        self.errors.append("%s %s: crash in %s did not reproduce when the behaviour was re-run alone" % (mode, res.get("id"), c.get("frame")))
+        return
+    self.sigs[sig] += 1
+    if (mode, sig) not in self.first and sig in self.confirmed:
+        self.first[(mode, sig)] = True
+        steps = beh.get("steps") or res.get("steps") or []
+        what = ("the process died while a %s history was replayed on the real store + controller: %s in %s (%s; stack: %s); "
+                "history: %s" % (mode, c["panic"], c["frame"], c["where"], " <- ".join(f.split("/")[-1] for f in c.get("frames", [])[:6]),
+                                 [(st["a"], st["s"], st.get("cfg"), st.get("add"), st.get("rem")) for st in steps]))
+        b = dict(beh)
+        if "steps" not in b:
+            b = {"static": res.get("static") or [], "steps": res.get("steps") or []}
+        self.ctx.violation(sig, what, {"mode": mode, "behaviour": b, "result": res})
+
+
+Tally.crashed = _crashed
+
+
+def replay_behaviours(ctx, tally, mode, behs, final=False):
     if not behs:
         return []
     bfile = os.path.join(ctx.work, "beh-%s.ndjson" % mode)
@@ -166,8 +206,8 @@ def replay(ctx, tally, mode, behs, final=False):
         raise kit.Inconclusive("c08-replay %s: %d behaviours, %d results" % (mode, len(behs), len(results)))
     for b, r in zip(behs, results):
         tally.judge(mode, b, r)
-        if not r.get("drift") and not r.get("err"):
-            for st in b["steps"]:   # the controller read an add-event whose slice the store had shifted in place meanwhile
+        if not r.get("drift") and not r.get("err"):   # (a crash while reading such an event counts: the window was reached)
+            for st in b["steps"][:r["n"]] if "n" in r else b["steps"]:   # the controller read an add-event whose slice the store had shifted in place meanwhile
                 ev = st.get("ev") if st["a"] == "Ctl" else None
                 if ev and ev.get("t") == "add" and len(set(ev["eps"])) != len(ev["eps"]):
                     tally.aliased += 1
@@ -176,12 +216,12 @@ def replay(ctx, tally, mode, behs, final=False):
 
 def probe(ctx, tally):
     behs = [{"id": i, "svcs": ["s1", "s2"], "static": [], "cap": 2, "steps": PROBES[f]} for i, f in enumerate(FLAGS)]
-    results = replay(ctx, tally, "probe", behs, final=True)
+    results = replay_behaviours(ctx, tally, "probe", behs, final=True)
     flags = {}
     for f, r in zip(FLAGS, results):
         if r.get("err"):
             raise kit.Inconclusive("probe %s: %s" % (f, r["err"]))
-        flags[f] = not r.get("viol")
+        flags[f] = not r.get("viol")   # (a probe that crashed has been reported by judge; the flag is then a guess)
         ctx.case(key=["probe", f], nontrivial=True)
     return flags
 
@@ -203,6 +243,9 @@ def count_cases(ctx, mode, behs, results):
         if r.get("err"):
             continue
         key = [mode] + [(s["a"], s["s"], s["cfg"], s["add"], s["rem"]) for s in b["steps"]]
+        if r.get("crash"):
+            ctx.case(key=key, nontrivial=True)
+            continue
         ctx.case(key=key, nontrivial=r.get("ctlsteps", 0) > 0 and r.get("qchecks", 0) > 0)
         if not r.get("drift") and r.get("n") == len(b["steps"]):
             exact += 1
@@ -210,9 +253,9 @@ def count_cases(ctx, mode, behs, results):
     return exact
 
 
-def run_replay_file(ctx):
-    with open(ctx.replay_file) as f:
-        rep = json.load(f)
+def replay(ctx, rep):
+    """bin/check C08 --replay <file>: re-execute the recorded behaviour on the real store + controller."""
+    ctx.build()
     art = rep.get("artefact", {})
     beh = art.get("behaviour")
     if not beh:
@@ -228,7 +271,7 @@ def run_replay_file(ctx):
     b = {"id": 0, "svcs": beh.get("svcs") or ["s1", "s2"], "static": beh.get("static") or [], "cap": beh.get("cap", 2),
          "steps": strip_model(beh["steps"])}
     tally = Tally(ctx)
-    res = replay(ctx, tally, "replay", [b], final=True)
+    res = replay_behaviours(ctx, tally, "replay", [b], final=True)
     ctx.case(key="replay", nontrivial=True)
     ctx.sample({"behaviour": [(s["a"], s["s"], s["cfg"], s["add"], s["rem"]) for s in b["steps"]], "result": res[0]})
     ctx.cov["rule"] = "one recorded behaviour re-executed on the real store + controller"
@@ -238,8 +281,6 @@ def run_replay_file(ctx):
 
 def run(ctx):
     ctx.build()
-    if getattr(ctx, "replay_file", None):
-        return run_replay_file(ctx)
     ctx.assumptions += [
         "the event channel's capacity is scaled from 32 to 2 (1 in one configuration); the harness re-creates the channel with that capacity",
         "one dependency per handleDependencyUpdate call; a configuration delivered by discovery is never nil",
@@ -284,7 +325,7 @@ def run(ctx):
         ctx.mc("config", "ConfigFlow", "MC_ConfigFlow_pinned.cfg", workers=4, timeout=300, expect_violated=["Converged"], count=False)
     if not all_fixed:
         name = "MC_ConfigFlow_tree_avoid.cfg"
-        p = write_cfg(ctx, name, cfg_text("Spec", consts(flags, h=7 if ctx.thorough else 5, avoid=True), inv))
+        p = write_cfg(ctx, name, cfg_text("Spec", consts(flags, h=6 if ctx.thorough else 5, avoid=True), inv))
         ctx.mc("config", "ConfigFlow", name, workers=8 if ctx.thorough else 4, timeout=900, extra_files=[p])
 
     # 3. spec -> code
@@ -304,7 +345,7 @@ def run(ctx):
             raise kit.Inconclusive("transition cover %s: %d transitions, %d behaviours emitted" % (mode, r.generated - 1, len(behs)))
         if tlcmode == "sim" and len(behs) < kw["sim_num"] // 2:
             raise kit.Inconclusive("simulation emitted only %d behaviours" % len(behs))
-        results = replay(ctx, tally, mode, behs)
+        results = replay_behaviours(ctx, tally, mode, behs)
         exact = count_cases(ctx, mode, behs, results)
         summary[mode] = {"behaviours": len(behs), "followed_exactly": exact}
         if mode == "cover" and behs:
@@ -320,7 +361,10 @@ def run(ctx):
     rnd = kit.read_ndjson(rfile)
     events = []
     for r in rnd:
-        tally.judge("random", {"static": r["static"], "updates": r["updates"], "seed": r["seed"]}, r)
+        tally.judge("random", {"static": r.get("static"), "updates": r.get("updates"), "seed": r.get("seed")}, r)
+        if r.get("crash"):
+            ctx.case(key=["random-crash", r.get("seed")], nontrivial=True)
+            continue
         if r.get("err"):
             continue
         events += r["events"]
@@ -329,7 +373,7 @@ def run(ctx):
     name = "Trace_ConfigFlow_tree.cfg"
     p = write_cfg(ctx, name, cfg_text("TraceSpec", consts(flags, naddr=3, h=1000000),
                                       ["INVARIANTS TypeOK NoDupStore ViewsReadable", "POSTCONDITION TraceAccepted"]))
-    good = [r for r in rnd if not r.get("err")]
+    good = [r for r in rnd if not r.get("err") and not r.get("crash")]
     tfile = os.path.join(ctx.work, "trace.json")
     with open(tfile, "w") as f:
         json.dump(events, f, separators=(",", ":"))
@@ -353,6 +397,7 @@ def run(ctx):
                          "add_events_read_with_a_stale_slot_through_the_aliased_slice": tally.aliased}
     ctx.cov["finding_counts"] = dict(tally.sigs)
     ctx.cov["model_drift"] = len(tally.drift)
+    ctx.cov["worker_crashes"] = tally.crashes
     ctx.cov["rule"] = ("behaviours = every transition of ConfigFlowGen's state graph (BFS path + transition) for the tree's Fix* flags, seeded TLC "
                        "simulation (H=12, 3 addresses), seeded random histories on the code; distinct by the sequence of updates and controller "
                        "steps; non-trivial = the real controller handled at least one event and Converged was judged at at least one quiescent point")
@@ -362,8 +407,9 @@ def run(ctx):
         for d in tally.drift[:5]:
             print("MODEL-DRIFT module=ConfigFlow %s" % json.dumps(d)[:600], flush=True)
             ctx.notes.append("MODEL-DRIFT " + json.dumps(d)[:600])
-        raise kit.Inconclusive("the real store/controller left the model %d times (flags %s): the exhaustive result does not transfer"
-                               % (len(tally.drift), flags))
-    if tally.blocked == 0 or tally.uchecks == 0 or tally.aliased == 0:
+        if not ctx.violations:   # with a violation in hand the drift is a consequence to note, not a reason to withhold the verdict
+            raise kit.Inconclusive("the real store/controller left the model %d times (flags %s): the exhaustive result does not transfer"
+                                   % (len(tally.drift), flags))
+    if not ctx.violations and (tally.blocked == 0 or tally.uchecks == 0 or tally.aliased == 0):
         raise kit.Inconclusive("vacuous replay: no handler ever blocked on the full channel / no unknown-service update / "
                                "no add-event read after the store mutated the aliased slice")
